@@ -318,12 +318,19 @@ class Check:
                 continue
             if term_kinds and term.get("k") not in term_kinds:
                 continue
+            lv = E.leaves(term["c"]) if term.get("k") not in ("BinaryOperator", "ConditionalOperator") else []
             for s in b["succ"]:
                 if s.get("lab") in ("T", "F"):
-                    for t, v in E.implied(term["c"], s["lab"] == "T"):
-                        if v == val and matcher(t):
-                            out.append((b["id"], s["lab"], s["to"]))
-                            break
+                    hit = any(v == val and matcher(t) for t, v in E.implied(term["c"], s["lab"] == "T"))
+                    if not hit and len(lv) >= 2:
+                        # a compound condition closing a short-circuit evaluation (`!(!a && !b)`): the atom is decided on this edge for the
+                        # paths on which one other leaf took a particular value (the edge as a whole is then the trigger: an over-approximation)
+                        for other in lv:
+                            for oval in (True, False):
+                                known = lambda t, k=E.key(other), oval=oval: oval if E.key(t) == k else None
+                                hit = hit or any(v == val and matcher(t) and E.key(t) != E.key(other) for t, v in E.implied(term["c"], s["lab"] == "T", known))
+                    if hit:
+                        out.append((b["id"], s["lab"], s["to"]))
         return out
 
     def require_response(self, rule, fn, matcher, val, response, name, min_edges=1, until=None, exits=("ret", "fall"), why="", term_kinds=None, **flowkw):
@@ -333,7 +340,12 @@ class Check:
         if len(edges) < min_edges:
             raise AnalysisBroken("%s: RESPONSE trigger %s=%s matched %d edge(s) in %s, expected >= %d" % (self.pid, matcher.desc, val, len(edges), fn.name, min_edges))
         for (bid, lab, to) in edges:
-            fl = self.flow(fn, start=to, markers={"R": response}, **flowkw)
+            kw = dict(flowkw)
+            term = fn.blocks[bid].get("term") or {}
+            if term.get("k") in ("BinaryOperator", "ConditionalOperator") and "init_env" not in kw:
+                # the trigger is a short-circuit edge inside a larger condition: carry what it decided into the closing branch (flow.py "@sc:" marks)
+                kw["init_env"] = {"@sc:" + E.key(t): v for t, v in E.implied(term["c"], lab == "T")}
+            fl = self.flow(fn, start=to, markers={"R": response}, **kw)
             bad = []
             for s in fl.sites:
                 e = s.ev
